@@ -393,6 +393,11 @@ class Typer:
             lt, rt = self.type_of(e.left, env, fn), self.type_of(e.right, env, fn)
             if isinstance(e.op, (ast.Sub, ast.BitAnd, ast.BitOr, ast.BitXor)) and (is_set(lt) or is_set(rt)):
                 return lt if is_set(lt) else rt
+            if isinstance(e.op, (ast.Sub, ast.BitAnd, ast.BitOr, ast.BitXor)):
+                # dict views support set algebra and yield a set
+                for side, st in ((e.left, lt), (e.right, rt)):
+                    if isinstance(side, ast.Call) and isinstance(side.func, ast.Attribute) and side.func.attr in ("keys", "items") and strip_none(st)[0] == "iter":
+                        return ("set", strip_none(st)[1])
             if isinstance(e.op, ast.Add):
                 if strip_none(lt)[0] in ("list", "str", "tuple", "tuplev"):
                     return lt
@@ -422,6 +427,8 @@ class Typer:
         return ANY
 
     def _attr(self, e: ast.Attribute, env, fn) -> tuple:
+        if isinstance(e.value, ast.Name) and e.value.id in ("dict", "OrderedDict") and e.value.id not in env and e.attr == "fromkeys":
+            return ("bmeth", ("dict", ANY, ANY), "fromkeys")
         bt = self.type_of(e.value, env, fn)
         outs = []
         for b in members(strip_none(bt)):
@@ -627,6 +634,9 @@ class Typer:
                     return union(base[2], dflt) if dflt else base[2]
                 if name == "copy":
                     return base
+                if name == "fromkeys":
+                    a0 = self.type_of(e.args[0], env, fn) if e.args else ANY
+                    return ("dict", self.iter_elem(a0), NONE)
                 return NONE
             if bk == "list":
                 if name in ("pop",):
